@@ -80,6 +80,16 @@ def check_desc(res, desc, dt, from_frame, FF):
         add_violation(res, f"C03:construct-raises:{mod}.{name}", f"{desc}: constructor raised {e!r}", case)
         return
     f = c.frame
+    # the per-command flags as an OBJECT carries them (drivers read cmd.sendtwice / cmd.devicetype / cmd.response on instances)
+    row_ = R.BY_NAME.get((mod, name))
+    if row_ is not None:
+        tab_, r_ = row_
+        tw_ = {"GEAR_STD": 5, "GEAR_SPECIAL": 4, "DEV_STD": 3, "DEV_INST": 3, "DEV_SPECIAL": 5}[tab_]
+        want = (bool(r_[tw_]), r_[tw_ + 1] is None, r_[4] if tab_ == "GEAR_STD" else 0)
+        for what, obj in (("built", c),):
+            have = (bool(obj.sendtwice), obj.response is None, obj.devicetype)
+            if have != want:
+                add_violation(res, f"C03:instance-flags:{mod}.{name}", f"{what} object {desc}: (sendtwice, no answer, devicetype) = {have}, table {want}", case)
     if len(f) != bits or f.as_integer != val:
         add_violation(res, f"C03:frame-bits:{mod}.{name}", f"{desc}: library frame {len(f)}/{f.as_integer:#x}, standard {bits}/{val:#x}", case)
     if c.is_query != (c.response is not None):
@@ -92,6 +102,10 @@ def check_desc(res, desc, dt, from_frame, FF):
         return
     if got != desc:
         add_violation(res, f"C03:decode-name:{mod}.{name}", f"standard frame {bits}/{val:#x} (dt={dt}) decodes to {got}, table says {desc}", case)
+    elif row_ is not None:
+        have = (bool(d.sendtwice), d.response is None, d.devicetype)
+        if have != want:
+            add_violation(res, f"C03:instance-flags:{mod}.{name}", f"decoded object {desc}: (sendtwice, no answer, devicetype) = {have}, table {want}", case)
 
 
 def run_shard(shard):
